@@ -5,7 +5,7 @@ tools/conformance.py (1) lets pyvc prove the contract from this source and (2) r
 inputs and evaluates the same contract natively.  A contract that pyvc proves but CPython violates is an unsound encoding.
 """
 from itertools import product, combinations, permutations
-from bisect import bisect_right
+from bisect import bisect_right, bisect_left
 
 
 def floordiv_mod(a, b):
@@ -205,6 +205,19 @@ def rows_of_empty(n):
     return (len(t), len(t[0]), len(t[n]))
 
 
+def first_geq(n, s, x):
+    t = [s]
+    for i in range(n):
+        t.append(t[-1] + 2)
+    return bisect_left(t, x)
+
+
+def member(x, v):
+    if v in x:
+        return 1
+    return 0
+
+
 C = 'conformance/cases.py'
 def fill_table(n, s):
     t = [s]
@@ -246,6 +259,12 @@ def picks(n):
 
 
 CONTRACTS = {
+    # bisect_left on a sorted list; membership of an int in a list
+    (C, 'first_geq'): {'params': {'n': 'int', 's': 'int', 'x': 'int'}, 'requires': ['n >= 0'], 'raises': {}, 'returns': 'int',
+                       'loops': {0: {'inv': ['len(t) == _it + 1', 'forall(lambda u: implies(0 <= u and u <= _it, t[u] == s + 2 * u), lambda u: t[u])']}},
+                       'ensures': ['0 <= result', 'result <= n + 1', 'result == 0 or s + 2 * (result - 1) < x', 'result == n + 1 or x <= s + 2 * result']},
+    (C, 'member'): {'params': {'x': 'intlist', 'v': 'int'}, 'raises': {}, 'returns': 'int',
+                    'ensures': ['(result == 1) == (not forall(lambda j: not (0 <= j and j < len(x)) or x[j] != v))', 'result == 0 or result == 1']},
     # [[] for i in range(..)]: that many DISTINCT empty lists (appending to one leaves the others empty)
     (C, 'rows_of_empty'): {'params': {'n': 'int'}, 'requires': ['n >= 1'], 'raises': {}, 'returns': 'tuple:int,int,int',
                            'ensures': ['result[0] == n + 1', 'result[1] == 1', 'result[2] == 0']},
